@@ -39,7 +39,7 @@ TOKEN_RE = re.compile(r"""
   | (?P<num>0x[0-9A-Fa-f_]+|\d[\d_]*(?:u8|u16|u32|u64|usize)?)
   | (?P<id>[A-Za-z_]\w*)
   | (?P<chr>'(?:\\.|[^'\\])')
-  | (?P<op>::|=>|==|!=|<=|>=|&&|\|\||\+=|-=|->|\.\.|[{}()\[\];,.:<>=&|+\-*/?!\#%^@$~])
+  | (?P<op>::|=>|==|!=|<<=|>>=|<=|>=|&&|\|\||\+=|-=|\|=|&=|\^=|<<|>>|->|\.\.|[{}()\[\];,.:<>=&|+\-*/?!\#%^@$~])
 """, re.X)
 
 
@@ -86,12 +86,16 @@ class P:
         self.eat(open_)
         depth = 1
         start = self.i
-        while depth:
+        while depth > 0:
             v = self.next()
             if v == open_:
                 depth += 1
             elif v == close:
                 depth -= 1
+            elif v == ">>" and close == ">":
+                depth -= 2
+            elif v == "<<" and open_ == "<":
+                depth += 2
         return self.t[start:self.i - 1]
 
 
@@ -99,7 +103,7 @@ class P:
 # expressions
 # ---------------------------------------------------------------------------------------------
 
-BINOPS = [("||",), ("&&",), ("==", "!=", "<", ">", "<=", ">="), ("+", "-"), ("*", "/")]
+BINOPS = [("||",), ("&&",), ("==", "!=", "<", ">", "<=", ">="), ("|",), ("^",), ("&",), ("<<", ">>"), ("+", "-"), ("*", "/", "%")]
 
 
 def parse_expr(p, no_struct=False, level=0):
@@ -123,11 +127,15 @@ def parse_type(p):
             break
         if v in ("<", "(", "["):
             depth += 1
+        elif v == ">>":
+            if depth < 2:
+                break
+            depth -= 2
         elif v in (">", ")", "]"):
             if depth == 0:
                 break
             depth -= 1
-        elif depth == 0 and (v in (",", ";", "{", "=", "=>", "where") or v in ("==", "&&", "||", "+", "*", "?", ".")):
+        elif depth == 0 and (v in (",", ";", "{", "=", "=>", "where") or v in ("==", "!=", "&&", "||", "+", "*", "?", ".", "/", "%", "-", "<<", "|", "^", "<=", ">=")):
             break
         out.append(p.next())
     return "".join(out)
@@ -189,6 +197,9 @@ def parse_postfix(p, no_struct):
         elif p.at(".") and p.peek(1) != ".":
             p.next()
             name = p.next()
+            if p.at("::") and p.peek(1) == "<":   # method turbofish
+                p.next()
+                p.skip_balanced("<", ">")
             if p.at("("):
                 e = ("method", e, name, parse_args(p))
             else:
@@ -223,6 +234,9 @@ def parse_primary(p, no_struct):
             return ("tuple", items)
         p.eat(")")
         return ("paren", e)
+    if v == "||":  # closure without parameters
+        p.next()
+        return ("closure", [], parse_expr(p))
     if v == "|":  # closure `|pat, ..| body`
         p.next()
         params = []
@@ -239,6 +253,43 @@ def parse_primary(p, no_struct):
         scrut = parse_expr(p, no_struct=True)
         st = _parse_match_body(p, scrut)
         return ("matchexpr", st[1], st[2])
+    if v == "if" and p.peek(1) != "let":
+        p.next()
+        cond = parse_expr(p, no_struct=True)
+        then = parse_block(p)
+        els = None
+        if p.at("else"):
+            p.next()
+            els = [("expr", parse_primary(p, no_struct), False)] if p.at("if") else parse_block(p)
+        return ("ifexpr", cond, then, els)
+    if v == "[":
+        p.next()
+        items = []
+        while not p.at("]"):
+            items.append(parse_expr(p))
+            if p.at(";"):   # [x; n]
+                p.next()
+                n = parse_expr(p)
+                p.eat("]")
+                return ("arrayrep", items[0], n)
+            if p.at(","):
+                p.next()
+        p.eat("]")
+        return ("array", items)
+    if k == "id" and v == "b" and p.kind(1) in ("str", "chr"):
+        p.next()
+        lit = p.next()
+        body = lit[1:-1]
+        out, i = [], 0
+        while i < len(body):
+            if body[i] == "\\":
+                esc = body[i + 1]
+                out.append({"n": 10, "r": 13, "t": 9, "0": 0, "\\": 92, "'": 39, '"': 34}[esc])
+                i += 2
+            else:
+                out.append(ord(body[i]))
+                i += 1
+        return ("bytestr", out) if lit[0] == '"' else ("num", out[0])
     if k == "id" and v in ("true", "false"):
         p.next()
         return ("bool", v == "true")
@@ -445,6 +496,9 @@ def parse_stmt(p):
         return ("break",)
     if v == "return":
         p.next()
+        if p.at(";"):
+            p.next()
+            return ("return", ("unit",))
         e = parse_expr(p)
         p.eat(";")
         return ("return", e)
@@ -466,11 +520,11 @@ def parse_stmt(p):
         rhs = parse_expr(p)
         p.eat(";")
         return ("assignto", e, rhs)
-    if p.at("+="):
-        p.next()
+    if p.peek() in ("+=", "-=", "|=", "&=", "^="):
+        op = p.next()
         rhs = parse_expr(p)
         p.eat(";")
-        return ("addassignto", e, rhs)
+        return ("addassignto", e, rhs) if op == "+=" else ("opassignto", op[0], e, rhs)
     if p.at(";"):
         p.next()
         return ("expr", e, True)
